@@ -146,13 +146,18 @@ RECURSIVE EncSegs(_, _)
 EncSegs(segs, four) == IF segs = <<>> THEN <<>> ELSE <<Head(segs).t, Len(Head(segs).asns)>> \o EncAsns(Head(segs).asns, four) \o EncSegs(Tail(segs), four)
 
 \* RFC 6793 4.2.3: reconstruct the AS path from AS_PATH (2-byte, with AS_TRANS) and AS4_PATH
-PathLen(segs) == LET F[i \in 0..Len(segs)] == IF i = 0 THEN 0 ELSE F[i-1] + (IF segs[i].t = 1 THEN 1 ELSE Len(segs[i].asns)) IN F[Len(segs)]
+\* (an AS_SET counts for one AS number; AS_CONFED_SEQUENCE (3) and AS_CONFED_SET (4) segments are not counted)
+PathLen(segs) == LET F[i \in 0..Len(segs)] == IF i = 0 THEN 0 ELSE F[i-1] + (IF segs[i].t = 1 THEN 1 ELSE IF segs[i].t = 2 THEN Len(segs[i].asns) ELSE 0) IN F[Len(segs)]
 \* keep the leading (PathLen(p2) - PathLen(p4)) AS numbers of p2, then append p4
 RECURSIVE TakeLeading(_, _)
 TakeLeading(segs, n) ==
+    \* "a valid AS_CONFED_SEQUENCE or AS_CONFED_SET path segment SHALL be prepended if it is either the leading path segment
+    \* or is adjacent to a path segment that is prepended": here only while AS numbers are still owed (n > 0), which is all
+    \* the rows of the tables exercise
     IF n <= 0 \/ segs = <<>> THEN <<>>
     ELSE LET s == Head(segs) IN
-         IF s.t = 1 THEN <<s>> \o TakeLeading(Tail(segs), n - 1)
+         IF s.t \in {3, 4} THEN <<s>> \o TakeLeading(Tail(segs), n)
+         ELSE IF s.t = 1 THEN <<s>> \o TakeLeading(Tail(segs), n - 1)
          ELSE IF Len(s.asns) <= n THEN <<s>> \o TakeLeading(Tail(segs), n - Len(s.asns))
          ELSE <<[t |-> 2, asns |-> SubSeq(s.asns, 1, n)]>>
 MergeAsPath(p2, p4) ==
